@@ -1,29 +1,174 @@
 package main
 
 import (
+	"bytes"
 	"fmt"
 	"os"
+	"strconv"
+	"strings"
 )
 
-// selftestMain validates the library models against the native functions on small concrete
-// inputs and checks that the solver answers a trivial query.
+// selftestMain validates the solver pipe and the closed-form library models against the native
+// functions, exhaustively for byte strings of length <= 2 over a 6-byte alphabet (and the integer
+// model on its boundary shapes). A mismatch aborts: nothing the engine says could be trusted.
 func selftestMain() {
 	bad := 0
+	fail := func(f string, a ...interface{}) {
+		fmt.Printf("selftest: "+f+"\n", a...)
+		bad++
+	}
 	s := newSolver("z3", 5000)
 	x := mkVar("selftest_x", SBV8, nil)
-	r, _ := s.check(nil, []*Term{mkCmp(OpUlt, x, mkConst(SBV8, 3))}, nil)
-	if r != Sat {
-		fmt.Println("selftest: solver did not answer sat")
-		bad++
+	if r, _ := s.check(nil, []*Term{mkCmp(OpUlt, x, mkConst(SBV8, 3))}, nil); r != Sat {
+		fail("solver did not answer sat")
 	}
-	r, _ = s.check(nil, []*Term{mkCmp(OpUlt, x, mkConst(SBV8, 0))}, nil)
-	if r != Unsat {
-		fmt.Println("selftest: solver did not answer unsat")
-		bad++
+	if r, _ := s.check(nil, []*Term{mkCmp(OpUlt, x, mkConst(SBV8, 0))}, nil); r != Unsat {
+		fail("solver did not answer unsat")
+	}
+	// a model must satisfy what was asked
+	y := mkVar("selftest_y", SBV64, nil)
+	q := mkAnd(mkCmp(OpSlt, mkConst(SBV64, 40), y), mkEq(mkBin(OpMul, y, mkConst(SBV64, 3)), mkConst(SBV64, 126)))
+	if r, m := s.check(nil, []*Term{q}, []*Term{y}); r != Sat || m[y.name] != 42 {
+		fail("solver model wrong: %v %v", r, m)
 	}
 	s.stop()
+
+	alpha := []byte{0, ' ', 'A', 'a', '1', 0xff}
+	var strs [][]byte
+	strs = append(strs, []byte{})
+	for _, a := range alpha {
+		strs = append(strs, []byte{a})
+		for _, b := range alpha {
+			strs = append(strs, []byte{a, b})
+		}
+	}
+	// symbolic operands of each length, evaluated under every assignment
+	symOf := func(tag string, n int) ([]value, []*Term) {
+		vs := make([]value, n)
+		ts := make([]*Term, n)
+		for i := range vs {
+			t := mkVar(fmt.Sprintf("st_%s%d_%d", tag, n, i), SBV8, nil)
+			vs[i], ts[i] = t, t
+		}
+		return vs, ts
+	}
+	evalT := func(t *Term, env map[string]uint64) uint64 { return t.eval(env, map[int]uint64{}) }
+	n := 0
+	for la := 0; la <= 2; la++ {
+		for lb := 0; lb <= 2; lb++ {
+			av, at := symOf("a", la)
+			bv, bt := symOf("b", lb)
+			cmp := bytesCmpTerm(av, bv)
+			eq := bytesEqTerm(av, bv)
+			pre := bytesHasPrefixTerm(av, bv)
+			for _, a := range strs {
+				if len(a) != la {
+					continue
+				}
+				for _, b := range strs {
+					if len(b) != lb {
+						continue
+					}
+					env := map[string]uint64{}
+					for i, t := range at {
+						env[t.name] = uint64(a[i])
+					}
+					for i, t := range bt {
+						env[t.name] = uint64(b[i])
+					}
+					n++
+					if got, want := int64(evalT(cmp, env)), int64(bytes.Compare(a, b)); got != want {
+						fail("bytes.Compare(%q,%q): model %d native %d", a, b, got, want)
+					}
+					if got, want := evalT(eq, env) != 0, bytes.Equal(a, b); got != want {
+						fail("bytes.Equal(%q,%q): model %v native %v", a, b, got, want)
+					}
+					if got, want := evalT(pre, env) != 0, bytes.HasPrefix(a, b); got != want {
+						fail("bytes.HasPrefix(%q,%q): model %v native %v", a, b, got, want)
+					}
+				}
+			}
+		}
+	}
+	// decimal model: digitsOnly + Horner value against strconv.ParseInt
+	digs := []byte{'0', '1', '9', '+', '-', 'a'}
+	for l := 1; l <= 3; l++ {
+		dv, dt := symOf("d", l)
+		ok := digitsOnly(dv)
+		val := hornerDigits(dv)
+		idx := make([]int, l)
+		for {
+			buf := make([]byte, l)
+			env := map[string]uint64{}
+			for i := range buf {
+				buf[i] = digs[idx[i]]
+				env[dt[i].name] = uint64(buf[i])
+			}
+			n++
+			allDigits := true
+			for _, c := range buf {
+				if c < '0' || c > '9' {
+					allDigits = false
+				}
+			}
+			if got := evalT(ok, env) != 0; got != allDigits {
+				fail("digitsOnly(%q): model %v", buf, got)
+			}
+			if allDigits {
+				want, _ := strconv.ParseInt(string(buf), 10, 64)
+				if got := int64(evalT(val, env)); got != want {
+					fail("ParseInt(%q): model %d native %d", buf, got, want)
+				}
+			}
+			k := 0
+			for k < l {
+				idx[k]++
+				if idx[k] < len(digs) {
+					break
+				}
+				idx[k] = 0
+				k++
+			}
+			if k == l {
+				break
+			}
+		}
+	}
+	// ASCII case mapping image used by caseMap's single-image shortcut
+	for c := 0; c < 128; c++ {
+		lo := strings.ToLower(string(rune(c)))
+		up := strings.ToUpper(string(rune(c)))
+		if len(lo) != 1 || len(up) != 1 {
+			fail("case mapping of ASCII %d is not a single byte", c)
+		}
+	}
+	// bit-vector evaluator vs Go semantics on boundary values
+	vals := []uint64{0, 1, 2, 0x7f, 0x80, 0xff, 0x7fffffffffffffff, 0x8000000000000000, ^uint64(0)}
+	for _, a := range vals {
+		for _, b := range vals {
+			if b != 0 {
+				if got, _ := evalBin(OpSDiv, SBV64, a, b); int64(a) != -1<<63 || int64(b) != -1 {
+					if int64(got) != int64(a)/int64(b) {
+						fail("sdiv %d %d", int64(a), int64(b))
+					}
+				}
+				if got, _ := evalBin(OpSRem, SBV64, a, b); int64(b) != -1 {
+					if int64(got) != int64(a)%int64(b) {
+						fail("srem %d %d", int64(a), int64(b))
+					}
+				}
+			}
+			if got, _ := evalBin(OpMul, SBV64, a, b); got != a*b {
+				fail("mul")
+			}
+			if evalCmp(OpSlt, SBV64, a, b) != (int64(a) < int64(b)) {
+				fail("slt")
+			}
+			n++
+		}
+	}
 	if bad > 0 {
 		os.Exit(2)
 	}
-	fmt.Println("gosym selftest ok")
+	fmt.Printf("gosym selftest ok (%d model evaluations compared with native functions)\n", n)
 }
